@@ -21,3 +21,36 @@ Definition obs_xdis_findlabels (T : optable) (code : list Z) : list Z :=
   let r := if tuple_ltb (t_version T) [3; 10] then (do us <- unpack_byte T code 0 0; Ok (labels_pre_310 T us))
            else (do us <- unpack_word T code 0 0; Ok (labels_word T us)) in
   match r with Err e => [1; err_code e] | Ok ls => [0; zlen ls] ++ ls end.
+
+(* ---- operand resolution over marker tables (twin: tools/harness/ops_instr.py:op_resolve) ---- *)
+From Xdis Require Import Spec.Dis Model.Resolve.
+Definition marker_tabs (ncmp : Z) : tabs :=
+  {| tb_consts := map (fun i => 1000 + Z.of_nat i) (seq 0 30); tb_names := map (fun i => 110000 + Z.of_nat i) (seq 0 20);
+     tb_vars := map (fun i => 118000 + Z.of_nat i) (seq 0 4); tb_cells := [118000; 99001]; tb_frees := [102000]; tb_ncmp := ncmp |}.
+
+Definition obs_rows (rows : list (list Z)) : list Z :=
+  if existsb (fun r => match r with _ :: 8 :: _ => true | _ => false end) rows then [1; 4]
+  else [0; zlen rows] ++ List.concat rows.
+
+Definition obs_resolve (T : optable) (code : list Z) : list Z :=
+  match instrs T code with
+  | Err e => [1; err_code e]
+  | Ok is => obs_rows (flat_map (fun x => match i_arg x with
+                                         | None => []
+                                         | Some a => match model_plan T (i_op x) with
+                                                     | PlNone => []
+                                                     | _ => [i_offset x :: model_resolve T (marker_tabs (zlen (t_cmp_op T))) (i_op x) a]
+                                                     end end) is)
+  end.
+
+(* CPython's view: instructions from its own unpacking, operands by its own plan *)
+Definition obs_spec_resolve (R : reftable) (code : list Z) : list Z :=
+  match spec_unpack R code with
+  | Err e => [1; err_code e]
+  | Ok us => obs_rows (flat_map (fun '(off, op, arg) => match arg with
+                                         | None => []
+                                         | Some a => match spec_plan R op with
+                                                     | PlNone => []
+                                                     | _ => [off :: spec_resolve R (marker_tabs (zlen (r_cmp_op R))) op a]
+                                                     end end) us)
+  end.
